@@ -8,7 +8,7 @@ VERIF = os.path.dirname(HERE)
 REPO = os.environ.get('VERIF_REPO', '/repo')
 WORK = os.environ.get('VERIF_WORK', os.path.join(VERIF, 'work'))
 CACHE = os.path.join(WORK, 'cache')
-CXXFLAGS = ['-std=c++17', '-O1', '-fno-vectorize', '-fno-slp-vectorize', '-fno-unroll-loops', '-DSQFVM_BUILD', '-DDISABLE_CLIPBOARD',
+CXXFLAGS = ['-std=c++17', '-O1', '-fno-vectorize', '-fno-slp-vectorize', '-fno-unroll-loops', '-DSQFVM_BUILD', '-DDISABLE_CLIPBOARD', '-Wno-builtin-macro-redefined', '-D__DATE__="Jan  1 2000"', '-D__TIME__="00:00:00"',
             '-I' + os.path.join(VERIF, 'harness', 'shim'), '-I' + os.path.join(REPO, 'src'), '-I' + os.path.join(REPO, 'include/tclap-1.2.2/include'), '-I' + os.path.join(VERIF, 'harness')]
 STATS = dict(compiled=0, cached=0, compile_s=0.0)
 
@@ -61,7 +61,7 @@ def build_unit(name, sources, roots, stub=(), extra_flags=(), check_ub=True, kee
         g = ll2py.Gen(mod, check_ub=check_ub)
         src = g.run(list(roots), set(stub))
         for f in os.listdir(udir):
-            if f.startswith('unit_') and f.endswith('.py'): os.unlink(os.path.join(udir, f))
+            if f.startswith('unit_') and (f.endswith('.py') or f.endswith('.marshal')): os.unlink(os.path.join(udir, f))
         open(py, 'w').write(src)
     t3 = time.time()
     info = dict(unit=name, sources=[os.path.relpath(s_, REPO) if s_.startswith(REPO) else os.path.relpath(s_, VERIF) for s_ in srcs], roots=list(roots), stubbed=sorted(stub),
@@ -72,10 +72,26 @@ def load_unit(py, run_ctors=True):
     """import the generated module, create globals, run static constructors. returns module"""
     sys.path.insert(0, HERE)
     import symrt as rt, cxxlib
-    spec = importlib.util.spec_from_file_location('unit_' + hashlib.sha1(py.encode()).hexdigest()[:8], py)
-    m = importlib.util.module_from_spec(spec)
-    # stubs: python models override IR definitions of the same name
-    spec.loader.exec_module(m)
+    import types, marshal, gc, ctypes
+    m = types.ModuleType('unit_' + hashlib.sha1(py.encode()).hexdigest()[:8])
+    m.__file__ = py
+    pyc = py + '.marshal'
+    code = None
+    if os.path.exists(pyc) and os.path.getmtime(pyc) >= os.path.getmtime(py):
+        try: code = marshal.load(open(pyc, 'rb'))
+        except Exception: code = None
+    if code is None:
+        code = compile(open(py).read(), py, 'exec')
+        try:
+            with open(pyc + '.tmp%d' % os.getpid(), 'wb') as f: marshal.dump(code, f)
+            os.replace(pyc + '.tmp%d' % os.getpid(), pyc)
+        except Exception: pass
+    sys.modules[m.__name__] = m
+    exec(code, m.__dict__)
+    del code
+    gc.collect()
+    try: ctypes.CDLL('libc.so.6').malloc_trim(0)     # the compiler's temporary memory goes back to the OS: forks get much cheaper
+    except Exception: pass
     G = m.init_globals()
     rt.MODULE_GLOBALS = [G]
     rt.MODULE = [m]
